@@ -13,7 +13,10 @@ model's fragment):
                `engines-differ`     interpreter observation ≠ VM observation
   copysem      `copy-aliased`       the dump of the untouched side differs before / after the mutations
   resown       `moved-resource-still-usable`, `uuid-twice`, `resource-lost`, `resource-duplicated`, … (see `resCensus`)
-  refinv       `stale-reference-usable`, `valid-reference-unusable`  (see `judgeRefinv`)
+  refinv       `stale-reference-usable`, `valid-reference-unusable`  (see `refOracle`)
+               programs of the families outside the model's fragment (attachments, `for` over a reference
+               to an array of references) that pass these oracles answer `OK … oracle-only` (judged
+               against the generator's specification in both engines, no model run)
 Then the model: the S-expression of the checked program is read and run; its observation must equal
 the interpreter's.
 -/
@@ -216,6 +219,8 @@ def judge (op : List String) (go : String) : Verdict :=
       | none =>
       if sx.startsWith "oof:" || gen == "wild" || gen == "casts" || tags0.contains "ref-nested-struct" then
         (if stream == "nointernal" then .ok ("!nt" :: "oracle-only" :: ("out-" ++ (i.out.takeWhile (· ≠ ':')).toString) :: tags0)
+         else if stream == "refinv" && sx.startsWith "oof:" && !(field op "expect").isEmpty then
+           .ok ("!nt" :: "oracle-only" :: ("out-" ++ (i.out.takeWhile (· ≠ '|')).toString) :: tags0)
          else .skip ("out-of-fragment:" ++ (sx.drop 4).toString))
       else if i.out.startsWith "user:computation-limit" then .skip "computation-limit"
       else
